@@ -9,6 +9,13 @@
 //!   mem slice <off> <size> | slicer <start> <end> | getbyte <off> | getword <off> | getu256 <off>
 //!   mem ctx | len | dump
 //!   mem words <len> | gas <words>      (stateless)
+//!   mem ico <kind> <result> <start> <end> <ret> <eof> <sl> <limit> <spent> <crem> <cref> <addr>
+//!       the REAL `Interpreter::insert_call_outcome` (kind = call; `insert_create_outcome` for create,
+//!       `insert_eofcreate_outcome` for eofcreate) of a fresh parent interpreter (is_eof = <eof>, <sl> stack
+//!       items, Gas::new(limit) with `spent` recorded) on the stream's shared memory, for the child result
+//!       (<result>, output <ret>, gas remaining <crem>, refunded <cref>, created address <addr> or `-`) and the
+//!       return window <start>..<end>; reply `ok len=.. ctx=.. chg=<lo>..<hi>|- ir=<instruction_result>
+//!       top=<stack top|-> sl=<stack len> rem=<gas remaining> ref=<refunded> rd=<return_data_buffer>`
 //! replies: state-changing calls `ok len=<len> ctx=<bytes>` (rmem: `ok|oog rem=<gas> len=.. ctx=..`),
 //!   reads print the value, `dump` prints `buf=<bytes> cps=<c1,c2,..> last=<n>` (private fields, read
 //!   through the derived `Hash` impl with a recording `Hasher`), `panic` = caught Rust panic,
@@ -17,8 +24,11 @@
 //!   build with debug_assertions it is executed on a clone and must panic).
 use crate::*;
 use revm::interpreter::interpreter::resize_memory;
-use revm::interpreter::{gas, num_words, Gas, SharedMemory};
-use revm::primitives::{B256, U256};
+use revm::interpreter::{
+    gas, num_words, CallOutcome, Contract, CreateOutcome, Gas, InstructionResult, Interpreter, InterpreterResult,
+    SharedMemory,
+};
+use revm::primitives::{Address, Bytecode, Bytes, B256, U256};
 use std::hash::{Hash, Hasher};
 
 const P20: u64 = 1 << 20;
@@ -113,6 +123,95 @@ fn unhex(s: &str) -> Option<Vec<u8>> {
         return None;
     }
     (0..s.len() / 2).map(|i| u8::from_str_radix(s.get(2 * i..2 * i + 2)?, 16).ok()).collect()
+}
+
+fn dec_i64(s: &str) -> Option<i64> {
+    let (neg, d) = match s.strip_prefix('-') {
+        Some(r) => (true, r),
+        None => (false, s),
+    };
+    if d.is_empty() || !d.bytes().all(|c| c.is_ascii_digit()) {
+        return None;
+    }
+    let v = d.parse::<i128>().ok()?;
+    let v = if neg { -v } else { v };
+    // protocol domain: |refund| <= 2^62 (no i64 wrap in record_refund on a fresh counter)
+    if v < -(1i128 << 62) || v > (1i128 << 62) {
+        return None;
+    }
+    Some(v as i64)
+}
+pub const IRS: &[InstructionResult] = &[
+    InstructionResult::Continue,
+    InstructionResult::Stop,
+    InstructionResult::Return,
+    InstructionResult::SelfDestruct,
+    InstructionResult::ReturnContract,
+    InstructionResult::Revert,
+    InstructionResult::CallTooDeep,
+    InstructionResult::OutOfFunds,
+    InstructionResult::CreateInitCodeStartingEF00,
+    InstructionResult::InvalidEOFInitCode,
+    InstructionResult::InvalidExtDelegateCallTarget,
+    InstructionResult::CallOrCreate,
+    InstructionResult::OutOfGas,
+    InstructionResult::MemoryOOG,
+    InstructionResult::MemoryLimitOOG,
+    InstructionResult::PrecompileOOG,
+    InstructionResult::InvalidOperandOOG,
+    InstructionResult::OpcodeNotFound,
+    InstructionResult::CallNotAllowedInsideStatic,
+    InstructionResult::StateChangeDuringStaticCall,
+    InstructionResult::InvalidFEOpcode,
+    InstructionResult::InvalidJump,
+    InstructionResult::NotActivated,
+    InstructionResult::StackUnderflow,
+    InstructionResult::StackOverflow,
+    InstructionResult::OutOfOffset,
+    InstructionResult::CreateCollision,
+    InstructionResult::OverflowPayment,
+    InstructionResult::PrecompileError,
+    InstructionResult::NonceOverflow,
+    InstructionResult::CreateContractSizeLimit,
+    InstructionResult::CreateContractStartingWithEF,
+    InstructionResult::CreateInitCodeSizeLimit,
+    InstructionResult::FatalExternalError,
+    InstructionResult::ReturnContractInNotInitEOF,
+    InstructionResult::EOFOpcodeDisabledInLegacy,
+    InstructionResult::EOFFunctionStackOverflow,
+    InstructionResult::EofAuxDataOverflow,
+    InstructionResult::EofAuxDataTooSmall,
+    InstructionResult::InvalidEXTCALLTarget,
+];
+fn ir_by_name(s: &str) -> Option<InstructionResult> {
+    IRS.iter().copied().find(|r| format!("{:?}", r) == s)
+}
+/// the `return_ok!()` / `return_revert!()` patterns, written out (the harness must know which arms touch
+/// memory to decide whether a call is inside the contract of the unchecked `set`)
+fn ok_class(r: InstructionResult) -> bool {
+    use InstructionResult::*;
+    matches!(r, Continue | Stop | Return | SelfDestruct | ReturnContract)
+}
+fn revert_class(r: InstructionResult) -> bool {
+    use InstructionResult::*;
+    matches!(
+        r,
+        Revert | CallTooDeep | OutOfFunds | CreateInitCodeStartingEF00 | InvalidEOFInitCode | InvalidExtDelegateCallTarget
+    )
+}
+/// the byte range of the running context that differs between two snapshots
+fn changed(before: &[u8], after: &[u8]) -> String {
+    if before.len() != after.len() {
+        return format!("len:{}->{}", before.len(), after.len());
+    }
+    let lo = (0..before.len()).find(|&i| before[i] != after[i]);
+    match lo {
+        None => "-".into(),
+        Some(lo) => {
+            let hi = (0..before.len()).rev().find(|&i| before[i] != after[i]).unwrap();
+            format!("{}..{}", lo, hi + 1)
+        }
+    }
 }
 
 /// the context is addressable (`last_checkpoint <= buffer.len()`), else every access is UB
@@ -320,6 +419,83 @@ pub fn exec_op(st: &mut St, t: &[&str], out: &mut Out) -> String {
             ub(pre);
             contract(st, pre, move |s| hx(s.mem.get_u256(o as usize)))
         }
+        ["ico", kind, res, a, b, ret, eof, sl, limit, spent, crem, cref, addr] => {
+            let (a, b, ret, sl, limit, spent, crem) =
+                (num!(a), num!(b), bytes!(ret), num!(sl), num!(limit), num!(spent), num!(crem));
+            let Some(res) = ir_by_name(res) else { return "bad-op".into() };
+            let eof = match *eof {
+                "0" => false,
+                "1" => true,
+                _ => return "bad-op".into(),
+            };
+            let Some(cref) = dec_i64(cref) else { return "bad-op".into() };
+            let addr = if *addr == "-" {
+                None
+            } else {
+                match U256::from_str_radix(addr, 16) {
+                    Ok(v) if v < (U256::from(1) << 160) => Some(Address::from_word(B256::from(v))),
+                    _ => return "bad-op".into(),
+                }
+            };
+            let kind = match *kind {
+                "call" => 0u8,
+                "create" => 1,
+                "eofcreate" => 2,
+                _ => return "bad-op".into(),
+            };
+            // protocol domain: no u64 / i64 wrap in the gas bookkeeping (debug builds panic there)
+            if sl > 1024 || spent > limit || (limit - spent).checked_add(crem).is_none() {
+                return "bad-op".into();
+            }
+            let out_len = if b > a { b - a } else { 0 };
+            let target = out_len.min(ret.len() as u64);
+            let writes = kind == 0 && (ok_class(res) || revert_class(res));
+            let pre = !writes || target == 0 || range_ok(&st.mem, a, target);
+            ub(pre);
+            contract(st, pre, move |s| {
+                let contract_ = Contract::new(
+                    Bytes::new(),
+                    Bytecode::new_raw(Bytes::from(vec![0u8])),
+                    None,
+                    Address::ZERO,
+                    None,
+                    Address::ZERO,
+                    U256::ZERO,
+                );
+                let mut interp = Interpreter::new(contract_, limit, false);
+                interp.is_eof = eof;
+                interp.instruction_result = InstructionResult::CallOrCreate;
+                for i in 0..sl {
+                    let _ = interp.stack.push(U256::from(0xabc0 + i));
+                }
+                let _ = interp.gas.record_cost(spent);
+                let mut cg = Gas::new(crem);
+                cg.record_refund(cref);
+                let before: Vec<u8> = if valid(&s.mem) { s.mem.context_memory().to_vec() } else { vec![] };
+                let result = InterpreterResult { result: res, output: Bytes::from(ret), gas: cg };
+                match kind {
+                    0 => interp.insert_call_outcome(&mut s.mem, CallOutcome::new(result, a as usize..b as usize)),
+                    1 => interp.insert_create_outcome(CreateOutcome::new(result, addr)),
+                    _ => interp.insert_eofcreate_outcome(CreateOutcome::new(result, addr)),
+                }
+                let after: Vec<u8> = if valid(&s.mem) { s.mem.context_memory().to_vec() } else { vec![] };
+                let top = match interp.stack.data().last() {
+                    Some(w) => hx(*w),
+                    None => "-".into(),
+                };
+                format!(
+                    "ok {} chg={} ir={:?} top={} sl={} rem={} ref={} rd={}",
+                    state_str(&s.mem),
+                    changed(&before, &after),
+                    interp.instruction_result,
+                    top,
+                    interp.stack.len(),
+                    interp.gas.remaining(),
+                    interp.gas.refunded(),
+                    hxb(&interp.return_data_buffer)
+                )
+            })
+        }
         ["ctx"] => {
             let pre = valid(&st.mem);
             ub(pre);
@@ -486,7 +662,8 @@ impl<'a> Gen<'a> {
                 };
                 self.emit(format!("mem rmem {n}"));
             }
-            39..=50 => {
+            47..=50 => self.ico_random(),
+            39..=46 => {
                 let (o, s) = self.range(48);
                 let d = self.data(s as usize);
                 self.emit(format!("mem set {o} {d}"));
@@ -572,6 +749,90 @@ impl<'a> Gen<'a> {
             }
         }
     }
+    /// bytes without a zero: a zero-fill or a skipped copy is always visible
+    fn nzdata(&mut self, n: usize) -> String {
+        let b: Vec<u8> = (0..n).map(|_| self.rng.range(1, 255) as u8).collect();
+        hxb(&b)
+    }
+    /// one `insert_call_outcome` / `insert_create_outcome` / `insert_eofcreate_outcome` request
+    fn ico(&mut self, kind: &str, res: InstructionResult, start: u64, end: u64, retlen: usize, eof: bool, sl: u64) -> String {
+        let limit = 1_000_000 + self.rng.below(1000);
+        let spent = self.rng.range(100_000, 900_000);
+        let crem = match self.rng.below(4) {
+            0 => 0,
+            1 => spent,
+            _ => self.rng.below(spent + 1),
+        };
+        let cref: i64 = match self.rng.below(5) {
+            0 => 0,
+            1 => -(self.rng.below(20_000) as i64),
+            _ => self.rng.below(60_000) as i64,
+        };
+        let addr = match (kind, self.rng.below(8)) {
+            ("call", _) => "-".to_string(),
+            (_, 0) => "-".to_string(),
+            _ => hx(self.rng.u256() >> 96usize),
+        };
+        let ret = self.nzdata(retlen);
+        self.emit(format!(
+            "mem ico {kind} {res:?} {start} {end} {ret} {} {sl} {limit} {spent} {crem} {cref} {addr}",
+            b01(eof)
+        ))
+    }
+    /// a random outcome re-entering the running frame the way the frame machine does it: the window was made
+    /// addressable by the CALL (inside the context), the child returned anything
+    fn ico_random(&mut self) {
+        let len = self.len();
+        let res = if self.rng.chance(3, 4) {
+            *self.rng.pick(&[
+                InstructionResult::Stop,
+                InstructionResult::Return,
+                InstructionResult::SelfDestruct,
+                InstructionResult::Revert,
+                InstructionResult::CallTooDeep,
+                InstructionResult::OutOfFunds,
+                InstructionResult::OutOfGas,
+            ])
+        } else {
+            *self.rng.pick(IRS)
+        };
+        let kind = *self.rng.pick(&["call", "call", "call", "call", "call", "call", "create", "eofcreate"]);
+        let out_len = match self.rng.below(6) {
+            0 => 0,
+            1 => *self.rng.pick(&[1u64, 31, 32, 33, 64]),
+            _ => self.rng.below(70),
+        }
+        .min(len);
+        let start = match self.rng.below(5) {
+            0 => len - out_len, // the window ends with the memory
+            1 => (32 * self.rng.below(4)).min(len - out_len),
+            _ => self.rng.below(len - out_len + 1),
+        };
+        let (start, end) = match (out_len, self.rng.below(6)) {
+            // an empty window may sit anywhere, also far outside, also reversed
+            (0, 0) => (*self.rng.pick(&[u64::MAX, 1 << 40, len + 1]), self.rng.below(5)),
+            (0, 1) => (len + self.rng.below(100), len + self.rng.below(3)),
+            (0, _) => (start, start.saturating_sub(self.rng.below(2) * self.rng.below(10))),
+            _ => (start, start + out_len),
+        };
+        let retlen = match self.rng.below(8) {
+            0 => 0,
+            1 => out_len.saturating_sub(1),
+            2 => out_len,
+            3 => out_len + 1,
+            4 => 2 * out_len,
+            5 => 1,
+            _ => self.rng.below(2 * out_len + 40),
+        } as usize;
+        let sl = match self.rng.below(12) {
+            0 => 1024,
+            1 => 1023,
+            2 => 0,
+            _ => self.rng.below(12),
+        };
+        let eof = self.rng.chance(1, 4);
+        self.ico(kind, res, start, end, retlen, eof, sl);
+    }
     fn begin(&mut self, gas: u64) {
         self.depth = 0;
         self.emit(format!("begin mem {gas}"));
@@ -606,8 +867,22 @@ fn call_round_trip(g: &mut Gen, depth: usize) {
     // return-data window
     let ol = g.rng.below(n + 1);
     let oo = g.rng.below(n - ol + 1);
-    let d = g.data(ol as usize);
-    g.emit(format!("mem set {oo} {d}"));
+    if g.rng.chance(1, 2) {
+        let d = g.data(ol as usize);
+        g.emit(format!("mem set {oo} {d}"));
+    } else {
+        // the real re-entry: the child returned fewer / as many / more bytes than the window
+        let retlen = match g.rng.below(5) {
+            0 => 0,
+            1 => ol.saturating_sub(1),
+            2 => ol,
+            3 => ol + 1,
+            _ => g.rng.below(2 * ol + 8),
+        } as usize;
+        let res = *g.rng.pick(&[InstructionResult::Return, InstructionResult::Stop, InstructionResult::Revert, InstructionResult::OutOfGas]);
+        let sl = g.rng.below(8);
+        g.ico("call", res, oo, oo + ol, retlen, false, sl);
+    }
     if g.rng.chance(1, 2) {
         g.emit("mem dump".into());
     }
@@ -682,6 +957,93 @@ pub fn gen(seed: u64, n: usize, out: &mut Out) -> Vec<String> {
             }
         }
     }
+    // 1d. the REAL Interpreter::insert_call_outcome (insert_create_outcome, insert_eofcreate_outcome): complete
+    // cross product result class x window length x returned length x window position, on a parent frame
+    // (two non-empty frames below it) whose 160 bytes are all non-zero; a buffer dump after every block
+    g.begin(1_000_000);
+    g.emit("mem resize 64".into());
+    let d = g.nzdata(64);
+    g.emit(format!("mem set 0 {d}"));
+    g.emit("mem newctx".into());
+    g.emit("mem resize 32".into());
+    let d = g.nzdata(32);
+    g.emit(format!("mem set 0 {d}"));
+    g.emit("mem newctx".into());
+    g.emit("mem resize 160".into());
+    let d = g.nzdata(160);
+    g.emit(format!("mem set 0 {d}"));
+    const MEMLEN: u64 = 160;
+    let classes = [
+        InstructionResult::Stop,
+        InstructionResult::Return,
+        InstructionResult::SelfDestruct,
+        InstructionResult::Revert,
+        InstructionResult::CallTooDeep,
+        InstructionResult::OutOfFunds,
+        InstructionResult::OutOfGas,
+        InstructionResult::PrecompileError,
+        InstructionResult::FatalExternalError,
+    ];
+    let mut k = 0u64;
+    for res in classes {
+        for out_len in [0u64, 1, 31, 32, 33, 64] {
+            let mut rets = vec![0, 1, out_len.saturating_sub(1), out_len, out_len + 1, 2 * out_len];
+            rets.sort();
+            rets.dedup();
+            for retlen in rets {
+                let mut offs = vec![0u64, 1, 31, 32, 33, 63, 64, 65, 95, 96, 97, MEMLEN - out_len, (MEMLEN - out_len).saturating_sub(1)];
+                offs.sort();
+                offs.dedup();
+                for off in offs {
+                    if off + out_len > MEMLEN {
+                        continue;
+                    }
+                    k += 1;
+                    g.ico("call", res, off, off + out_len, retlen as usize, k % 4 == 0, k % 7);
+                }
+            }
+        }
+        g.emit("mem dump".into());
+    }
+    // every InstructionResult x every kind x legacy / EOF parent, window 32 bytes, 20 returned
+    for &res in IRS {
+        for kind in ["call", "create", "eofcreate"] {
+            for eof in [false, true] {
+                g.ico(kind, res, 64, 96, 20, eof, 3);
+            }
+        }
+    }
+    // a full stack: the status word does not fit, the memory is written nevertheless
+    for res in [InstructionResult::Return, InstructionResult::Revert, InstructionResult::OutOfGas] {
+        for kind in ["call", "create", "eofcreate"] {
+            for sl in [1023u64, 1024] {
+                g.ico(kind, res, 32, 64, 40, false, sl);
+            }
+        }
+    }
+    // empty / reversed windows far outside the memory (nothing is touched), windows outside the memory (`ub`: not
+    // executed in a release build), malformed
+    for l in [
+        "mem ico call Return 18446744073709551615 0 a1a2a3 0 2 1000 500 100 7 -",
+        "mem ico call Return 1000 1000 a1a2a3 0 2 1000 500 100 7 -",
+        "mem ico call Revert 200 100 a1a2a3 1 2 1000 500 100 -7 -",
+        "mem ico call Return 159 161 a1a2 0 2 1000 500 100 7 -",
+        "mem ico call Return 160 161 a1 0 2 1000 500 100 7 -",
+        "mem ico call OutOfGas 160 161 a1 0 2 1000 500 100 7 -",
+        "mem ico call Return 159 161 a1 0 2 1000 500 100 7 -",
+        "mem ico call Return 0 1 a1 0 1025 1000 500 100 7 -",
+        "mem ico call Return 0 1 a1 0 2 1000 1001 100 7 -",
+        "mem ico call Return 0 1 a1 0 2 18446744073709551615 0 1 7 -",
+        "mem ico call Return 0 1 a1 0 2 1000 500 100 4611686018427387905 -",
+        "mem ico call Retur 0 1 a1 0 2 1000 500 100 7 -",
+        "mem ico frob Return 0 1 a1 0 2 1000 500 100 7 -",
+        "mem ico create Return 0 0 - 0 2 1000 500 100 7 10000000000000000000000000000000000000000",
+        "mem ico eofcreate ReturnContract 0 0 - 1 2 1000 500 100 7 -",
+        "mem ico call Return 0 1 a1 0 2 1000 500 100 7",
+    ] {
+        g.emit(l.to_string());
+    }
+    g.emit("mem dump".into());
     // stream 2 (structured): random op sequences, nesting up to 40, and call round trips
     for case in 0..n {
         let gas = g.gas();
